@@ -125,7 +125,7 @@ def compare(part, clause, site, condition, detail, got, ref, scale=None):
     return True
 
 
-def check_lens(part, o, rows_w, unit_desc, cfg_desc, ap, ftype, obj, max_field, do_cardinal=True):
+def check_lens(part, o, rows_w, unit_desc, cfg_desc, ap, ftype, obj, max_field, do_cardinal=True, cond_extra=''):
     P = o.paraxial
     ref = abcd.cardinal(rows_w)
     part.evals += 1
@@ -145,7 +145,7 @@ def check_lens(part, o, rows_w, unit_desc, cfg_desc, ap, ftype, obj, max_field, 
             compare(part, f'cardinal-{name}', f'Paraxial.{name}', c0, det, getattr(P, name)(), ref[name],
                     scale=max(big, abs(ref['F1']), abs(ref['F2'])))
     c1 = cond(rows_w, ref, ftype, obj, kind='pupil', ap=ap)
-    c2 = cond(rows_w, ref, ftype, obj, kind='chief')
+    c2 = cond(rows_w, ref, ftype, obj, kind='chief') + cond_extra
     epl = abcd.EPL(rows_w)
     xpl = abcd.XPL(rows_w)
     if not (math.isfinite(epl) and math.isfinite(xpl)) or abs(epl) > 1e7 or abs(xpl) > 1e7 or abcd.pupil_degenerate(rows_w):
@@ -245,6 +245,15 @@ def run_unit(unit):
                    do_cardinal=first or bool(omat or imat))
         if first:
             linearity(part, o, rows_w, dict(word=unit['word'], stop=unit['stop'], variant=v))
+        if not (omat or imat) and ap[0] == 'EPD':
+            # the same lens with its field list on the other side of the axis (the largest field is a negative one): normalised
+            # coordinates refer to the largest field in absolute value, so the chief ray of Hy = 1 is the same ray
+            sp_n = dict(sp, fields=[[-mf, 0.0, 0.0], [0.0, 0.0, 0.0], [0.4 * mf, 0.0, 0.0]])
+            o_n = LZ.build(sp_n)
+            part.states += 1
+            check_lens(part, o_n, rows_w, dict(word=unit['word'], stop=unit['stop'], variant=v),
+                       dict(obj=obj, ap=list(ap), ftype=ft, fields=[-mf, 0.0, 0.4 * mf]), ap, ft, obj, mf, do_cardinal=False,
+                       cond_extra=',largest-field=negative')
         if first or omat or imat:
             # history: every query was just made on this lens object; now replace the first glass through set_index and ask again
             gi = next((i for i, s_ in enumerate(sp['surfs']) if s_['mat'] not in ('air', 'mirror')), None)
